@@ -106,11 +106,13 @@ def fail_or_gap(R, clause, p, replay=None):
 
 def paths_or_undecided(R, clause, paths):
     """True if every path is usable; otherwise records UNDECIDED and returns False"""
-    bad = [p for p in paths if p.kind in ("unsupported", "unknown")]
+    bad = list(getattr(paths, "undecided", None) or [p for p in paths if p.kind in ("unsupported", "unknown")])
+    if hasattr(paths, "reported"):
+        paths.reported = True
     if bad:
         R.undecided(clause, f"{len(bad)} path(s) outside the engine subset: {bad[0].value}")
         return False
-    if not paths:
+    if not len(paths):
         R.undecided(clause, "no feasible path (vacuous)")
         return False
     # frame condition of every path: no write to an object that outlives the call
@@ -196,7 +198,17 @@ def _run_group(modname, gname, tier):
         mod = importlib.import_module(modname)
         fn = mod.GROUPS[gname]
         R = Results(mod.PROPERTY, gname)
+        from . import runner as _runner
+        _runner.REGISTRY.clear()
         fn(R, tier)
+        # explorations whose undecided paths no obligation reported: undecided, by name of the group
+        n_und = 0
+        for pl in _runner.REGISTRY:
+            if pl.undecided and not pl.reported:
+                n_und += 1
+                if n_und <= 5:
+                    R.undecided(f"paths-outside-the-engine-subset/{n_und}", f"{len(pl.undecided)} path(s): {pl.undecided[0].value}")
+        _runner.REGISTRY.clear()
         items = R.items
         if not items:
             items = [dict(name=f"{mod.PROPERTY}/{gname}/-", status=ERROR, backend="-",
